@@ -10772,6 +10772,7 @@ func (p *parser) visitAndAppendStmt(stmts []js_ast.Stmt, stmt js_ast.Stmt) []js_
 		case *js_ast.SFor, *js_ast.SForIn, *js_ast.SForOf, *js_ast.SWhile, *js_ast.SDoWhile:
 			p.currentScope.LabelStmtIsLoop = true
 		}
+		_, labeledStmtIsForIn := labeledStmt.Data.(*js_ast.SForIn)
 
 		// If we're dropping this statement, consider control flow to be dead
 		_, shouldDropLabel := p.dropLabelsMap[name]
@@ -10787,6 +10788,20 @@ func (p *parser) visitAndAppendStmt(stmts []js_ast.Stmt, stmt js_ast.Stmt) []js_
 		if shouldDropLabel {
 			p.isControlFlowDead = old
 			return stmts
+		}
+
+		// Lowering "a: for (var x = 0 in y) continue a" puts "x = 0" in front of
+		// the loop. Move it in front of the label too so this is still the label
+		// of the loop instead of the label of a block.
+		if labeledStmtIsForIn {
+			if block, ok := s.Stmt.Data.(*js_ast.SBlock); ok && len(block.Stmts) > 1 {
+				last := block.Stmts[len(block.Stmts)-1]
+				switch last.Data.(type) {
+				case *js_ast.SForIn, *js_ast.SLabel:
+					stmts = append(stmts, block.Stmts[:len(block.Stmts)-1]...)
+					s.Stmt = last
+				}
+			}
 		}
 
 		if p.options.minifySyntax {
